@@ -23,8 +23,8 @@ UnitsWord == << <<116>>, <<114>>, <<117>>, <<101>>, <<32>>, <<46>>, <<36>>, <<49
 \*              t       r       u       e      space   .      $      1      (      )      true      e-acute      U+0301 (identifier part only)
 \* long literals: ten-digit blocks, so that <= 5 units reach 50 significant digits
 UnitsLong == << <<49,50,51,52,53,54,55,56,57,48>>, <<48,48,48,48,48,48,48,48,48,48>>, <<57,57,57,57,57,57,57,57,57,53>>,
-                <<46>>, <<49>>, <<101,45,51>>, <<95>> >>
-\*              1234567890   0000000000   9999999995   .   1   e-3   _
+                <<46>>, <<49>>, <<101,45,51>>, <<95>>, <<101>> >>
+\*              1234567890   0000000000   9999999995   .   1   e-3   _   e  (an exponent padded with twenty zeros)
 NoBytes == <<>>
 Bracket == <<91>>
 Unbracket == <<93>>
